@@ -213,11 +213,13 @@ def gen_reference(ctx, comps, a, b):
     return "offset", ref
 
 
-def gen_limits(ctx, npts, errs):
+def gen_limits(ctx, npts, errs, refkind=None):
     rng = ctx.rng
     k = len(npts) - 1
     j = rng.randrange(0, k + 1)
     tol = rng.choice([-1.0, 0.0, 1e-2, 1e2])
+    if refkind == "exact" and rng.random() < 0.5:
+        tol = 0.0
     mx = rng.choice([0, npts[0] - 1, npts[0], npts[j] - 1, npts[k] - 1, npts[k] - 1])
     mn = rng.choice([1, 1, npts[0], npts[0] + 1, npts[j], npts[k]])
     if tol == 1e2 and max(errs) <= 1e2 and mn <= npts[k] and rng.random() < 0.5:
@@ -247,7 +249,7 @@ def run(ctx):
                 continue
             seen_limits = set()
             for _ in range(per_cfg):
-                tol, mx, mn = gen_limits(ctx, npts, errs)
+                tol, mx, mn = gen_limits(ctx, npts, errs, refkind)
                 if (tol, mx, mn) in seen_limits:
                     continue
                 seen_limits.add((tol, mx, mn))
